@@ -1,6 +1,7 @@
 // C16 — Rotations and spherical coordinates are geometrically correct for every axis.
 // M3: complete products angle x axis (x length) and (r, theta, phi) x axis.
 #include "mc/mc.hpp"
+#include <sstream>
 #include "mc/exit_trap.hpp"
 #include "mc/purity.hpp"
 #include "libphysica/Linear_Algebra.hpp"
@@ -312,6 +313,115 @@ static void spherical(unsigned long long& unit)
 	mc::count("distinct_nontrivial", cases);
 }
 
+// ---- the ends of "every r", "every non-zero axis": radii next to the ends of the double range, axes tilted from +-z by amounts whose
+// squares are subnormal or underflow, and a lattice of integer axes run under a watchdog -------------------------------------------------
+static void extremes(unsigned long long& unit)
+{
+	auto A = axes();
+	std::vector<double> thetas;
+	for(int k = 0; k <= 22; k += 2) thetas.push_back(M_PI * k / 22);
+	thetas.push_back(1e-8);
+	const double phis4[] = {0.0, 1.0, M_PI / 2, 4.0};
+	long long cases = 0;
+	// (a) radii
+	for(size_t ai = 0; ai < A.size(); ai++)
+	{
+		if(!mc::mine(unit++)) continue;
+		ld nx = A[ai].x, ny = A[ai].y, nz = A[ai].z, nn = sqrtl(nx * nx + ny * ny + nz * nz);
+		nx /= nn; ny /= nn; nz /= nn;
+		Vector axis({A[ai].x, A[ai].y, A[ai].z});
+		for(double r : {1e154, 1e200, 1e300, 1.5e308, 1e-154, 1e-200, 1e-300})
+			for(double th : thetas)
+				for(double ph : phis4)
+				{
+					std::string key = "axis=" + mc::dec(A[ai].x) + "," + mc::dec(A[ai].y) + "," + mc::dec(A[ai].z) + ";r=" + mc::dec(r) + ";theta=" + mc::dec(th) + ";phi=" + mc::dec(ph);
+					Vector v, w;
+					if(mc::library_exits([&]() { v = Spherical_Coordinates(r, th, ph, axis); w = Spherical_Coordinates(r, th, ph); })) { fail("spherical_extremes", key, "terminated_process", "valid request ended the process"); continue; }
+					cases++;
+					ld norm = sqrtl((ld)v[0] * v[0] + (ld)v[1] * v[1] + (ld)v[2] * v[2]), dot = v[0] * nx + v[1] * ny + v[2] * nz;
+					ld wn = sqrtl((ld)w[0] * w[0] + (ld)w[1] * w[1] + (ld)w[2] * w[2]);
+					if(!(fabsl(norm - r) <= K * mc::U_ * r)) fail("spherical_extremes", key, "norm_not_r", "norm " + mc::dec((double)(norm / r)) + " r");
+					if(!(fabsl(dot - r * cosl((ld)th)) <= K * mc::U_ * r)) fail("spherical_extremes", key, "polar_angle_wrong", "v.n / r = " + mc::dec((double)(dot / r)) + " expected cos(theta) = " + mc::dec((double)cosl((ld)th)));
+					if(!(fabsl(wn - r) <= K * mc::U_ * r && fabsl(w[2] - r * cosl((ld)th)) <= K * mc::U_ * r)) fail("spherical_extremes", key, "plain_overload_wrong", "plain overload: norm " + mc::dec((double)(wn / r)) + " r");
+				}
+	}
+	// (b) tilts
+	for(double t : {1e-150, 1e-154, 1e-156, 1e-157, 1e-158, 1e-159, 1e-160, 1e-161, 3e-162, 1e-163, 1e-170, 1e-200, 1e-300, 4.9406564584124654e-324})
+		for(int pole = -1; pole <= 1; pole += 2)
+			for(int dir = 0; dir < 4; dir++)
+			{
+				if(!mc::mine(unit++)) continue;
+				double ax = dir == 0 ? t : dir == 2 ? -t : dir == 3 ? t : 0, ay = dir == 1 ? t : dir == 3 ? -t : 0;
+				for(double len : {1.0, 1e-6, 1e6})
+				{
+					Vector axis({ax * len, ay * len, pole * len});
+					for(double r : {1.0, 1e3})
+						for(double th : thetas)
+						{
+							std::vector<std::vector<double>> ring;
+							for(int k = 0; k < 24; k++)
+							{
+								double ph = 2 * M_PI * k / 24;
+								std::string key = "axis=" + mc::dec(ax * len) + "," + mc::dec(ay * len) + "," + mc::dec(pole * len) + ";r=" + mc::dec(r) + ";theta=" + mc::dec(th) + ";phi=" + mc::dec(ph);
+								Vector v;
+								if(mc::library_exits([&]() { v = Spherical_Coordinates(r, th, ph, axis); })) { fail("spherical_tilt", key, "terminated_process", "valid request ended the process"); continue; }
+								cases++;
+								ld norm = sqrtl((ld)v[0] * v[0] + (ld)v[1] * v[1] + (ld)v[2] * v[2]), dot = (ld)pole * v[2];	// the unit axis is +-z up to t
+								if(!(fabsl(norm - r) <= K * mc::U_ * r)) fail("spherical_tilt", key, "norm_not_r", "norm " + mc::dec((double)norm));
+								if(!(fabsl(dot - r * cosl((ld)th)) <= K * mc::U_ * r)) fail("spherical_tilt", key, "polar_angle_wrong", "v.n = " + mc::dec((double)dot) + " expected " + mc::dec((double)(r * cosl((ld)th))));
+								ring.push_back({v[0], v[1], v[2]});
+							}
+							if(ring.size() == 24 && std::sin(th) > 1e-6)
+								for(size_t k = 0; k < 24; k++)
+								{
+									auto &a = ring[k], &b = ring[(k + 1) % 24];
+									ld tp = pole * ((ld)a[0] * b[1] - (ld)a[1] * b[0]);
+									ld expect = (ld)r * r * sinl((ld)th) * sinl((ld)th) * sinl(2 * M_PIl / 24);
+									if(!(fabsl(tp - expect) <= 1e-6L * expect)) fail("spherical_tilt", "axis=" + mc::dec(ax * len) + "," + mc::dec(ay * len) + "," + mc::dec(pole * len) + ";r=" + mc::dec(r) + ";theta=" + mc::dec(th) + ";phi_index=" + std::to_string(k), "not_right_handed_in_phi", "n.(v(phi) x v(phi+d)) = " + mc::dec((double)tp) + " expected " + mc::dec((double)expect));
+								}
+						}
+				}
+			}
+	// (c) every integer axis (i,j,k) != 0 with |i|,|j|,|k| <= N, in batches, each batch in a child with a time limit: the child
+	// announces the axis before the call, so an axis on which Rotation_Matrix never returns is named
+	int N = mc::thorough() ? 40 : 24;
+	for(int i = -N; i <= N; i++)
+	{
+		if(!mc::mine(unit++)) continue;
+		auto o = mc::isolate([&](std::function<void(const std::string&)> out) {
+			for(int j = -N; j <= N; j++)
+				for(int k = -N; k <= N; k++)
+				{
+					if(!i && !j && !k) continue;
+					out("A " + std::to_string(j) + " " + std::to_string(k) + "\n");
+					Matrix R = Rotation_Matrix(0.7, 3, Vector({(double)i, (double)j, (double)k}));
+					ld worst = 0;
+					for(int a = 0; a < 3; a++)
+						for(int b = 0; b < 3; b++)
+						{
+							ld q = 0;
+							for(int c = 0; c < 3; c++) q += (ld)R[c][a] * R[c][b];
+							worst = std::max(worst, fabsl(q - (a == b)));
+						}
+					ld nn = sqrtl((ld)i * i + (ld)j * j + (ld)k * k), fx = 0;
+					for(int a = 0; a < 3; a++) { ld q = (R[a][0] * (ld)i + R[a][1] * (ld)j + R[a][2] * (ld)k) / nn - (a == 0 ? i : a == 1 ? j : k) / nn; fx = std::max(fx, fabsl(q)); }
+					if(!(worst <= K * mc::U_ && fx <= K * mc::U_)) out("F " + std::to_string(j) + " " + std::to_string(k) + " " + mc::dec((double)worst) + " " + mc::dec((double)fx) + "\n");
+				}
+		}, 60.0);
+		cases += (2 * N + 1) * (2 * N + 1);
+		std::string last, line;
+		std::istringstream is(o.payload);
+		while(std::getline(is, line))
+		{
+			if(line.rfind("A ", 0) == 0) last = line.substr(2);
+			else if(line.rfind("F ", 0) == 0) fail("rotation_lattice", "axis=" + std::to_string(i) + " " + line.substr(2), "not_orthogonal_or_axis_not_fixed", "R^T R - 1 and R n - n: " + line);
+		}
+		if(o.kind == mc::Outcome::TIMEOUT) fail("rotation_lattice", "axis=" + std::to_string(i) + " " + last, "does_not_return", "Rotation_Matrix(0.7, 3, axis) did not return within the time limit");
+		else if(o.kind != mc::Outcome::RETURNED) fail("rotation_lattice", "axis=" + std::to_string(i) + " " + last, "terminated_process", std::string("the batch ended with ") + o.name());
+	}
+	mc::count("extreme_cases", cases);
+}
+
 // ---- call histories over rotations, spherical coordinates and angles ------------------------------------------------------------------
 static void histories(unsigned long long& unit)
 {
@@ -341,6 +451,7 @@ int main(int argc, char** argv)
 	unsigned long long unit = 0;
 	rotations(unit);
 	spherical(unit);
+	extremes(unit);
 	histories(unit);
 	if(mc::shard0()) mc::sample("Spherical_Coordinates(r=1, theta=pi/22, phi=pi/12, axis=(0,0,-1e6)): norm, v.n = r cos(theta), right-handed ring in phi; Rotation_Matrix(alpha=7pi/12, axis=(1,-2,3)): orthogonal, det 1, axis fixed, perpendicular vector turned by alpha");
 	return mc::finish();
